@@ -671,7 +671,6 @@ def run_source_case(codec, decl, carrier, L, outs, paths, env, st, seen=None, li
     if exp[0] == "ok":
         text = exp[1]
         # harness sanity: the decoded text is header + carrier(L') with L' the bytes of L under the effective codec
-        body = raw[len(BOM):] if bom else raw
         eff = (cc if not bom else "utf-8") or ie or "utf-8"
         try:
             Lp = L.encode(x).decode(eff if not bom else "utf-8")
